@@ -26,6 +26,7 @@ func init() {
 }
 
 func runC01(c *core.Ctx) {
+	bytesCtorRule(c, "C01-MIRROR")
 	ps := loadPDUs(c)
 	c.MinInstances("C01-MIRROR", MinPDUs)
 	c.MinInstances("C01-ERR", 2*MinPDUs)
